@@ -29,8 +29,8 @@ PARSE = 'xdoctest.parser.DoctestParser.parse'
 
 
 def run(ctx):
-    for fn in (r1_one_namespace, r1b_populated_once, r2_one_exec_per_part, r3_capture, r4_coroutine_driven, r5_tab_expansion,
-               r6_contiguous_slices, r7_decorated_statement_starts):
+    for fn in (r1_one_namespace, r1b_populated_once, r2_one_exec_per_part, r3_capture, r3b_capture_logs_on_every_exit, r4_coroutine_driven, r5_tab_expansion,
+               r6_contiguous_slices, r7_decorated_statement_starts, r8_prompt_lines_are_source):
         ctx.rep.rule(fn, ctx)
 
 
@@ -189,6 +189,70 @@ def r3_capture(ctx):
                'on every exit of the iteration (normal, Exception, BaseException) the captured text is stored for this part' if wit is None else
                'a path leaves the iteration after executing the part without storing its captured output',
                witness=None if wit is None else graph.fmt_path([n] + wit, f.module.relpath), anchor=RUN)
+
+
+# ---------------------------------------------------------------------------
+def r8_prompt_lines_are_source(ctx):
+    """every statement written after a prompt runs: a prompt-prefixed line is labelled source whatever its indentation
+    (the same structural clause as C13.R3b; a line labelled prose is silently never executed)"""
+    from . import c13
+    c13.r3b_prompt_is_source(ctx, rule='C01.R8')
+
+
+# ---------------------------------------------------------------------------
+CAP = 'xdoctest.utils.util_stream.CaptureStdout'
+
+
+def r3b_capture_logs_on_every_exit(ctx):
+    """the text RUN stores per part is `cap.text`; it is (re)computed by log_part() in CaptureStdout.__exit__.
+    Whatever the outcome of the with-body (the exception arguments of __exit__), an enabled capture must log
+    before it returns, and log_part must read exactly the text written since the previous part."""
+    rep = ctx.rep
+    fx = ctx.func(CAP + '.__exit__')
+    g = ctx.cfg(fx)
+    recv = fx.node.args.args[0].arg
+    logs = [n for n in g.nodes for c in node_calls(n) if isinstance(c.func, ast.Attribute) and c.func.attr == 'log_part' and is_name(c.func.value, recv)]
+    rep.floor('C01.R3b', 'log_part calls in CaptureStdout.__exit__', len(logs), 1)
+
+    def enabled_only(a, b, kind, tok):
+        if kind != 'n':
+            return False
+        if b.kind == 'branch' and b.attrs['test'].kind == 'test':
+            for fa in graph.facts_of(b.attrs['test'].ast, b.attrs['polarity']):
+                if is_attr_of(fa.expr, recv, 'enabled') and fa.polarity is False:
+                    return False
+        return True
+    wit = graph.must_pass([g.entry], lambda x: x is g.exit, through=logs, efilter=enabled_only)
+    rep.ob('C01.R3b', ctx.loc(fx, fx.node), '__exit__ of an enabled capture logs the part on every normal exit', wit is None,
+           'log_part() runs whether or not the with-body raised' if wit is None else
+           'an enabled capture can leave __exit__ without log_part(): when the part raises, its output is not recorded for it and shows up under a later part',
+           witness=None if wit is None else graph.fmt_path(wit, fx.module.relpath), anchor=CAP + '.__exit__')
+    # log_part: seek(_pos); text = read(); _pos = tell(); text stored
+    fl = ctx.func(CAP + '.log_part')
+    gl = ctx.cfg(fl)
+    rdl = ctx.rd(fl)
+    r2 = fl.node.args.args[0].arg
+    seq = []
+    for n in gl.nodes:
+        if n.kind != 'stmt' or n.dup:
+            continue
+        for c in node_calls(n):
+            if isinstance(c.func, ast.Attribute) and c.func.attr in ('seek', 'read', 'tell') and is_attr_of(c.func.value, r2, 'cap_stdout'):
+                seq.append((c.func.attr, n, c))
+    names = [k for (k, _, _) in seq]
+    ok_order = names == ['seek', 'read', 'tell']
+    ok_seek = ok_order and len(seq[0][2].args) == 1 and is_attr_of(seq[0][2].args[0], r2, '_pos')
+    ok_tell = ok_order and isinstance(seq[2][1].ast, ast.Assign) and any(is_attr_of(t, r2, '_pos') for t in seq[2][1].ast.targets) and seq[2][1].ast.value is seq[2][2]
+    rep.ob('C01.R3b', ctx.loc(fl, fl.node), 'log_part reads from the saved position and saves the new one', ok_order and ok_seek and ok_tell,
+           'seek(self._pos); read(); self._pos = tell()' if ok_order and ok_seek and ok_tell else
+           'the moving read position is not maintained (%s): output of one part is lost or attributed to another part' % names, anchor=CAP + '.log_part')
+    if ok_order:
+        rn = seq[1][1]
+        tv = rn.ast.targets[0].id if isinstance(rn.ast, ast.Assign) and isinstance(rn.ast.targets[0], ast.Name) and rn.ast.value is seq[1][2] else None
+        stores = [n for n in gl.nodes if n.kind == 'stmt' and not n.dup and isinstance(n.ast, ast.Assign) and any(is_attr_of(t, r2, 'text') for t in n.ast.targets)]
+        ok_text = tv is not None and len(stores) == 1 and is_name(stores[0].ast.value, tv) and all(d.node is rn for d in rdl.at(stores[0], tv))
+        rep.ob('C01.R3b', ctx.loc(fl, stores[0].ast if stores else fl.node), 'self.text = <what was just read>', ok_text,
+               'the text of the part is exactly the newly read segment' if ok_text else 'self.text is not the segment read by this call', anchor=CAP + '.log_part')
 
 
 # ---------------------------------------------------------------------------
@@ -654,7 +718,12 @@ from ..selftest import fire, silent      # noqa: E402
 
 DE = 'xdoctest/doctest_example.py'
 PA = 'xdoctest/parser.py'
+US = 'xdoctest/utils/util_stream.py'
 VARIANTS = [
+    fire('exit-skips-log-on-error', 'C01.R3b', (US, "    def __exit__(self, type_, value, trace):\n        if self.enabled:\n", "    def __exit__(self, type_, value, trace):\n        if trace is not None:\n            self.stop()\n            return False\n        if self.enabled:\n")),
+    fire('read-position-not-advanced', 'C01.R3b', (US, "        self._pos = self.cap_stdout.tell()\n", "")),
+    fire('log-reads-from-start', 'C01.R3b', (US, "        self.cap_stdout.seek(self._pos)\n", "        self.cap_stdout.seek(0)\n")),
+    silent('exit-returns-none-after-logging', (US, "        if trace is not None:\n            return False  # return a falsey value on error\n", "")),
     fire('P4-drop-expandtabs', 'C01.R5', (PA, "        string = string.expandtabs()\n", "")),
     fire('expandtabs-after-min-indent', 'C01.R5',
          (PA, "        string = string.expandtabs()\n", ""),
